@@ -71,10 +71,13 @@ def check_feed_loop(ck, fn, counting):
         o = None
         # returned local: `_0 = copy cnt`
         d0 = body.defs().get(0, [])
-        if len(d0) == 1 and d0[0][2] == "rv" and d0[0][3]["k"] == "use":
-            pl = d0[0][3]["o"].get("c") or d0[0][3]["o"].get("m")
-            if pl and not pl["p"]:
-                cnt_local = pl["l"]
+        # every assignment of the return value (one at the end, or one per early `return cnt`) copies the same local
+        locs = set()
+        for d in d0:
+            pl = (d[3]["o"].get("c") or d[3]["o"].get("m")) if d[2] == "rv" and d[3]["k"] == "use" else None
+            locs.add(pl["l"] if pl and not pl["p"] else None)
+        if len(locs) == 1 and None not in locs:
+            cnt_local = locs.pop()
         ck.ob("L-returns-counter", key, cnt_local is not None, "%s does not return its counter variable" % key)
     inc_blocks = set()
     if cnt_local is not None:
